@@ -76,7 +76,7 @@ def contracts():
                 'implies(%s, result is False)' % ' or '.join(worse),
                 'implies(not (%s), result == (%s))' % (
                     ' or '.join(worse), ' or '.join(better))],
-            loops=[dict(anchor='for a1, a2 in zip(args_mapping1', index='n',
+            loops=[dict(anchor='for a1, a2 in zip(args_mapping1, args_mapping2)', index='n',
                         invariant=[
                             'not exists(range(0, n), lambda j: %s)' % (
                                 SPEC % ('args_mapping2[j]',
